@@ -536,10 +536,13 @@ def simulate(recs, sync: bool = True) -> Sim:
                 sim.ticks += 3
                 was = in_watch[0]
                 in_watch[0] = True
-                run(n["children"], stack_names, stack_defs, blocks, "watch" if ctx == "top" else ctx, "watch")
-                in_watch[0] = was
-                sim.watch_steps[r["id"]] = len(sim.steps) - before
-                sim.watch_ticks[r["id"]] = sim.ticks - ticks_before
+                try:
+                    run(n["children"], stack_names, stack_defs, blocks, "watch" if ctx == "top" else ctx, "watch")
+                finally:
+                    # also when the body stops at a failing call: the synchronising Wait must cover everything before it
+                    in_watch[0] = was
+                    sim.watch_steps[r["id"]] = len(sim.steps) - before
+                    sim.watch_ticks[r["id"]] = sim.ticks - ticks_before
             elif k == "callmacro":
                 idx = step(r, stack=stack_defs, blocks=blocks)
                 name = r["name"]
